@@ -26,7 +26,7 @@ def merged(prop, seq_kwargs, scns):
     cov1, v1 = minthist.check(prop, collect=True, with_model=True, **seq_kwargs)
     cov2, v2, _ = conc.check(prop, scns)
     cov3, v3 = None, 0
-    if prop == "C01":
+    if prop in ("C01", "C03"):
         # behaviours of MintSteps (four and five concurrent requests) replayed on the real mint
         cov3, v3, _ = conc.guided_check(prop)
         v2 += v3
